@@ -101,6 +101,7 @@ func (h *c12Handler) OnStepStageFailure(_ step.RunningStep, stage string, _ *syn
 }
 
 type c12Scenario struct {
+	kind      string // "plugin" (default) or "foreach"
 	name      string
 	script    env.StepScript
 	order     []string // order in which deploy / enabling / starting inputs are provided
@@ -121,6 +122,8 @@ type c12Obs struct {
 
 var c12Runnable step.RunnableStep
 var c12Lifecycle step.Lifecycle[step.LifecycleStageWithSchema]
+var c12fRunnable step.RunnableStep
+var c12fLifecycle step.Lifecycle[step.LifecycleStageWithSchema]
 
 func c12Prepare() error {
 	if c12Runnable != nil {
@@ -143,6 +146,24 @@ func c12Prepare() error {
 		return err
 	}
 	c12Runnable, c12Lifecycle = rs, lc
+	// the loop provider over the real prepared sub-workflow
+	reg, _, err := newRegistry()
+	if err != nil {
+		return err
+	}
+	fp, err := reg.GetByKind("foreach")
+	if err != nil {
+		return err
+	}
+	frs, err := fp.LoadSchema(map[string]any{"workflow": "sub.yaml"}, map[string][]byte{"sub.yaml": []byte(subProg().YAML())})
+	if err != nil {
+		return err
+	}
+	flc, err := frs.Lifecycle(nil)
+	if err != nil {
+		return err
+	}
+	c12fRunnable, c12fLifecycle = frs, flc
 	return nil
 }
 
@@ -150,10 +171,14 @@ func c12Body(sc *c12Scenario, obs *c12Obs) func() {
 	return func() {
 		*obs = c12Obs{}
 		st := sc.script
-		env.W = env.NewWorld(&env.Script{Steps: map[string]*env.StepScript{"s": &st}})
+		env.W = env.NewWorld(&env.Script{Steps: map[string]*env.StepScript{"s": &st, "w": &st}})
 		h := &c12Handler{}
 		obs.h = h
-		rs, err := c12Runnable.Start(map[string]any{"step": "run"}, "s", h)
+		runnable := c12Runnable
+		if sc.kind == "foreach" {
+			runnable = c12fRunnable
+		}
+		rs, err := runnable.Start(map[string]any{"step": "run"}, "s", h)
 		if err != nil {
 			panic(err)
 		}
@@ -183,6 +208,8 @@ func c12Body(sc *c12Scenario, obs *c12Obs) func() {
 				}
 			case "cancelled":
 				in = map[string]any{"stop_if": true}
+			case "execute":
+				in = map[string]any{"items": []any{map[string]any{"v": 1}, map[string]any{"v": 2}}, "parallelism": 2}
 			}
 			h.add(c12Event{Kind: "provide", Stage: stage})
 			err := rs.ProvideStageInput(stage, in)
@@ -249,7 +276,11 @@ func c12Check(sc *c12Scenario, x *vrt.Exec, obs *c12Obs) []vrt.Violation {
 				}
 			}
 		}
-		out = append(out, vrt.Violation{Key: "pluginstep/" + clause + "/" + key, Detail: detail + "\n  scenario: " + sc.name + "\n  events: " + strings.Join(lines, "; ")})
+		pfx := "pluginstep/"
+		if sc.kind == "foreach" {
+			pfx = "loopstep/"
+		}
+		out = append(out, vrt.Violation{Key: pfx + clause + "/" + key, Detail: detail + "\n  scenario: " + sc.name + "\n  events: " + strings.Join(lines, "; ")})
 	}
 	oc := x.Outcome()
 	if oc.Panic != nil {
@@ -267,7 +298,11 @@ func c12Check(sc *c12Scenario, x *vrt.Exec, obs *c12Obs) []vrt.Violation {
 		return out
 	}
 	declaredOut := map[string]map[string]bool{}
-	for _, stg := range c12Lifecycle.Stages {
+	lifecycle := c12Lifecycle
+	if sc.kind == "foreach" {
+		lifecycle = c12fLifecycle
+	}
+	for _, stg := range lifecycle.Stages {
 		declaredOut[stg.ID] = map[string]bool{}
 		for o := range stg.Outputs {
 			declaredOut[stg.ID][o] = true
@@ -280,14 +315,14 @@ func c12Check(sc *c12Scenario, x *vrt.Exec, obs *c12Obs) []vrt.Violation {
 	closeReturned := false
 	afterComplete := false
 	provided := map[string]int{}
-	for _, e := range obs.h.events {
+	for ei, e := range obs.h.events {
 		switch e.Kind {
 		case "close-ret", "forceclose-ret", "final-forceclose-ret":
 			closeReturned = true
 		case "provide-ret":
-			if e.Stage == "deploy" || e.Stage == "enabling" || e.Stage == "starting" {
+			if e.Stage == "deploy" || e.Stage == "enabling" || e.Stage == "starting" || e.Stage == "execute" {
 				provided[e.Stage]++
-				if provided[e.Stage] == 2 && e.Err == "" && !closeReturnedBefore(obs.h.events, e) {
+				if provided[e.Stage] == 2 && e.Err == "" && !closeRequestedBefore(obs.h.events, ei) {
 					v("duplicate-input-accepted", e.Stage, "the "+e.Stage+" input was provided twice and the second call was not refused")
 				}
 			}
@@ -307,8 +342,10 @@ func c12Check(sc *c12Scenario, x *vrt.Exec, obs *c12Obs) []vrt.Violation {
 		switch e.Kind {
 		case "change":
 			if e.Prev == "-" {
-				if cur != "" {
-					v("second-initial-notification", e.New, "initial notification repeated")
+				// a notification without a previous stage announces the stage the step is in (the loop
+				// provider repeats it to say that it waits for input); it must name the current stage
+				if cur != "" && e.New != cur {
+					v("initial-notification-for-other-stage", e.New, "notification without previous stage names "+e.New+" while the step is in "+cur)
 				}
 				cur = e.New
 				continue
@@ -366,13 +403,10 @@ func c12Check(sc *c12Scenario, x *vrt.Exec, obs *c12Obs) []vrt.Violation {
 	return out
 }
 
-func closeReturnedBefore(events []c12Event, at c12Event) bool {
-	// once the step is closed, inputs may be ignored silently
-	for _, e := range events {
-		if e == at {
-			return false
-		}
-		if strings.HasSuffix(e.Kind, "-call") {
+func closeRequestedBefore(events []c12Event, idx int) bool {
+	// once closing has been requested, inputs may be ignored silently
+	for i := 0; i < idx; i++ {
+		if strings.HasSuffix(events[i].Kind, "-call") {
 			return true
 		}
 	}
@@ -422,6 +456,24 @@ func c12Scenarios(tier string) []*c12Scenario {
 		{"disabled", false, nil, "", false, -1},
 		{"disabled+close", false, []string{"close"}, "", false, -1},
 	}
+	// loop provider: enabling / execute inputs, Close / ForceClose at any time
+	for _, sc := range []struct {
+		n string
+		s env.StepScript
+	}{{"ok", env.StepScript{}}, {"err", env.StepScript{Run: env.RunErrorOut}}, {"hang", env.StepScript{Run: env.RunHangCancel}}, {"nodeploy", env.StepScript{Deploy: env.DeployFail}}} {
+		for oi, ord := range [][]string{{"enabling", "execute"}, {"execute", "enabling"}} {
+			for _, vr := range []variant{
+				{"plain", false, nil, "", nil, -1}, {"close", false, []string{"close"}, "", nil, -1}, {"forceclose", false, []string{"forceclose"}, "", nil, -1},
+				{"close+forceclose", false, []string{"close", "forceclose"}, "", nil, -1}, {"dupexecute", false, nil, "execute", nil, -1},
+				{"dupenable", false, []string{"close"}, "enabling", nil, -1}, {"disabled", false, nil, "", false, -1}, {"disabled+close", false, []string{"close"}, "", false, -1},
+			} {
+				out = append(out, &c12Scenario{kind: "foreach",
+					name:   fmt.Sprintf("foreach/%s/order%d/%s", sc.n, oi, vr.n),
+					script: sc.s, order: ord, dup: vr.dup, stop: vr.stop, closers: vr.closers, enabled: vr.enabled, closureMS: vr.closure,
+				})
+			}
+		}
+	}
 	for _, sc := range scripts {
 		for oi, ord := range orders {
 			for _, vr := range variants {
@@ -455,7 +507,11 @@ func init() {
 					}
 					var obs c12Obs
 					body := c12Body(sc, &obs)
-					cfg := vrt.ExploreCfg{Bound: tierBound(tier, 2, 3), Menu: menuTSE, Deadline: deadline, MaxExecs: tierBound(tier, 20000, 2000000),
+					bound, maxExecs := tierBound(tier, 2, 3), tierBound(tier, 20000, 2000000)
+					if sc.kind == "foreach" {
+						bound, maxExecs = tierBound(tier, 1, 2), tierBound(tier, 3000, 400000)
+					}
+					cfg := vrt.ExploreCfg{Bound: bound, Menu: menuTSE, Deadline: deadline, MaxExecs: maxExecs,
 						Exec: vrt.Config{Race: raceMode},
 						Check: func(x *vrt.Exec) []vrt.Violation {
 							out := c12Check(sc, x, &obs)
